@@ -150,6 +150,7 @@ fn literals() -> Vec<Case> {
         "max sum((value, i) in enumerate(values)) { value * x_i }\ns.t.\n    sum((weight, i) in enumerate(weights)) { weight * x_i } <= capacity\nwhere\n    let weights = [10, 60, 30]\n    let values = [1, 10, 15]\n    let capacity = 102\ndefine\n    x_i as Boolean for i in 0..len(weights)",
         "min sum(u in nodes(G)) { x_u }\ns.t.\n    x_v + x_u >= 1 for (v, u) in edges(G)\nwhere\n    let G = Graph {\n        A -> [B, C, D],\n        B -> [A: 2],\n        C -> [],\n        D\n    }\ndefine\n    x_u, x_v as Boolean for v in nodes(G), (_, u) in edges(G)",
         "min x_1 + \\x_2 + y\ns.t.\n    cap_i: x_i <= a[i] for i in 0..=1\n    x_{i + 1} - (y - x_i) >= 0 for i in 0..1\n    avg { x_1, y } / 2x_2 <= 3\nwhere\n    let a = [3, 4.5]\ndefine\n    x_i as NonNegativeReal(0, 10) for i in 0..2\n    \\x_2 as Real\n    y as IntegerRange(-2, 4)",
+        "min \\x_i + 2 * \\y_j_k - x_i\ns.t.\n    \\x_i >= i\n    \\y_j_k >= x_i + \\x_i\nwhere\n    let i = 5\ndefine\n    \\x_i as Real\n    \\y_j_k as NonNegativeReal\n    x_i as Real",
         "solve\ns.t.\n    a -> b <-> c\n    (a -> b) <-> c\n    not (a and b) or c xor a\n    any { a, b } implies all { b, c }\ndefine\n    a, b, c as Boolean",
         "max 2(x + y) - 3x / 2\ns.t.\n    x - (y - z) <= 4\n    x / (2 * y) >= -1\n    -(x + y) <= -(-2)\n    x * -2 <= 0 * (y / 1)\ndefine\n    x, y, z as Real(-10, 10)",
         "min prod(i in 1..=3) { i } * x + max(i in 0..2) { i * y } - min { x, y }\ns.t.\n    sum(i in 0..2, j in i..3) { c[i][j] * x } <= len(c)\nwhere\n    let c = [[1, 2, 3], [4, 5, 6]]\ndefine\n    x, y as NonNegativeReal",
